@@ -91,6 +91,13 @@ func PlayGrid(tier string) []*Config {
 	add(cfg([]int64{3, 9, 6, 4}, 1, 1, 2, 0, false, 2, "no", "sv:0,0,3,3", 2, 0, "standard", "classes"))
 	add(cfg([]int64{8, 3, 5, 8}, 0, 1, 2, 0, true, 3, "pot", "f52", 2, 0, "standard", "classes"))
 
+	// (C) 5- and 6-handed with very short stacks (many all-in levels, long seat walks)
+	for _, br := range vectors(5, []int64{1, 3}) {
+		add(cfg(br, 0, 1, 2, 0, false, 0, "no", "sv:1,0,1,1,0", 2, 0, "standard", "classes"))
+	}
+	add(cfg([]int64{2, 4, 1, 3, 2, 4}, 1, 1, 2, 0, false, 3, "no", "sv:2,0,2,1,1,0", 2, 0, "standard", "classes"))
+	add(cfg([]int64{3, 3, 3, 3, 3, 3}, 0, 1, 2, 0, true, 1, "pot", "royal52", 2, 0, "standard", "classes"))
+
 	if tier != "thorough" {
 		return out
 	}
